@@ -416,7 +416,7 @@ PROPS = {
                     "watch channels of every query kind on every index kind taken from fresh snapshots before each "
                     "transaction plus InsertWatch; channel bits sampled at hand-out and after every commit/abort; "
                     "non-trivial = a tracked channel exists when a transaction ends", _nt_watch,
-                    extra_modes=(("c07", 100, 2000), ("kf_l", 20, 100), ("c06inner", 150, 3000), ("sched", 120, 2500)), tlc_gen=True),
+                    extra_modes=(("c07", 100, 2000), ("kf_l", 20, 100), ("c06inner", 150, 3000), ("c06dense", 400, 8000), ("sched", 120, 2500)), tlc_gen=True),
     "C07": _db_prop("C07", "c07", 400, 8000,
                     "up to 4 change iterators created at arbitrary points (also in aborted transactions); Next with "
                     "fresh/retained snapshots and write transactions holding uncommitted changes of the table, full and "
